@@ -93,9 +93,14 @@ def shard(ctx):
     accepted = [t for t in accepted if "INKEY$" not in t.upper()]
     n = ctx.params["n"] // ctx.n
     tried = 0
-    while r.evaluations < n and tried < n * 3:
+    # every accepted corpus program once (sharded), then the random workload
+    queue = [("corpus", accepted[i], FullGen(rng).stdin_bytes(), True, None, []) for i in ctx.indices(len(accepted))]
+    while (r.evaluations < n or queue) and tried < n * 3 + len(accepted):
         tried += 1
-        kind, src, stdin, uses_files, lpt1, feats = make_case(rng, texts, accepted)
+        if queue:
+            kind, src, stdin, uses_files, lpt1, feats = queue.pop()
+        else:
+            kind, src, stdin, uses_files, lpt1, feats = make_case(rng, texts, accepted)
         if "INKEY$" in src.upper():
             continue
         rep = w.run(src, want=["files"] if uses_files else [], stdin=stdin, files={} if uses_files else None, budget=ctx.params["budget"], lpt1=lpt1)
